@@ -154,6 +154,9 @@ def stubbed(except_keys=(), only=None):
       setattr(owner, attr, real)
 
 
+MAX_REFUTED_PER_FAMILY = 3
+
+
 class GoalResult(object):
   __slots__ = ('fn', 'cfg', 'name', 'kind', 'status', 'time', 'backend', 'model', 'detail',
                'hyps', 'path')
@@ -183,6 +186,7 @@ def run_symbolic(fn_label, body, cfg_label='', loop_mode=None, setup_ctx=None,
     return body(c)
 
   t0 = time.time()
+  fam_refuted = {}
   for c, clauses in C.explore(one):
     stats['paths'] += 1
     stats['sym_time'] += time.time() - t0
@@ -215,7 +219,16 @@ def run_symbolic(fn_label, body, cfg_label='', loop_mode=None, setup_ctx=None,
       g = GoalResult()
       g.fn, g.cfg, g.name, g.kind, g.path = fn_label, cfg_label, name, kind, path
       g.hyps = len(hy)
+      fam = name.split('[')[0].split('@')[0]
+      if fam_refuted.get(fam, 0) >= MAX_REFUTED_PER_FAMILY and goal.kind != 'const':
+        # this clause family already failed several times in this case: the verdict is settled,
+        # do not spend solver time on its remaining instances
+        g.status, g.time, g.backend, g.model, g.detail = 'skipped', 0.0, '', None, 'family already refuted'
+        results.append(g)
+        continue
       r = solve.prove(hy, goal, tr, timeout_ms)
+      if r.status == 'refuted':
+        fam_refuted[fam] = fam_refuted.get(fam, 0) + 1
       g.status, g.time, g.backend, g.model, g.detail = r.status, r.time, r.backend, r.model, r.detail
       results.append(g)
     if canary is not None:
